@@ -5,6 +5,46 @@ HERE = os.path.dirname(os.path.dirname(os.path.abspath(__file__)))
 
 # id -> (engine, technique, level text, level note, design ref)
 CHECKS = {
+ "C01": ("envx",
+  "stateless model checking of the real stack in a deterministic world (virtual clock, scripted wire, quiescence barrier): DFS over all environment histories within a deviation budget",
+  "(a) Two real stacks joined by a scripted wire: every history in which the environment deviates at most <budget> times (quick 1, plus budget 2 on the smallest configuration; thorough 1 on the full configuration product, 2 and 3 on small ones) from the default answer - drop, duplicate, reorder or replay a frame, run an application call before a delivery, fire a timer early - over IPv4/IPv6, SACK on/off, Reno/CUBIC, MTUs, receive buffers, write chunkings, read pacing and initial sequence numbers that make the stream cross 2^31 and 2^32. (b) One stack against a raw peer built on an independent codec that acknowledges at arbitrary bytes (segment boundary-1, mid-segment), shrinks the window, withholds ACKs, loses segments and sends reordered/overlapping/duplicated data. Oracles after every step: bytes read are a prefix of bytes written (both directions); every byte ever put on the wire at sequence position p equals written byte p; the peer's reconstructed stream is a prefix of what was written.",
+  "Interleavings are explored at event granularity (delivery, timer, application call), not lock granularity inside an event. The passive side's initial sequence number is a SYN cookie and cannot be pinned; wrap-adjacent values are placed on the active side and on the raw peer.",
+  "DESIGN.md §3.2, §5 C01"),
+ "C02": ("envx",
+  "stateless model checking of two real stacks in a deterministic world: all histories that drop any single frame / pair of frames or fire a timer early, run to the idle horizon in virtual time; liveness decided exactly on the idle end state",
+  "Close scenarios (one-sided shutdown, simultaneous shutdown, half-close then reply, close with unread data, receiver stalls until the window closes then drains) x payload sizes {0, 1 segment, 3 segments, more than the receive window}: every history with up to 1 (thorough 2) dropped frames of the exchange (SYN, SYN-ACK, ACK, data, window update, FIN) or early timers. Oracles: everything written is delivered unless an endpoint reports an error; end-of-stream after shutdown, no data after it; both endpoints closed without error when nothing was lost; the world never ends idle (nothing in flight, no timer, no application call possible) with unsent/unacknowledged data or FIN on an endpoint that is not in the error state.",
+  "Horizon: idle world or 15 virtual minutes. One recorded known finding D6 (no zero-window probe).",
+  "DESIGN.md §5 C02"),
+ "C03": ("envx/seqx",
+  "explicit-state search: every sequence of handshake segments up to a depth replayed on a fresh real stack against a reference handshake machine; full product of SYN option sets x initial sequence numbers x acknowledgement numbers; all 64 flag combinations for strays",
+  "Passive open in normal and SYN-cookie mode: all sequences of length <=3 (thorough 4) over 12 letters (SYN, SYN with other sequence number, right ACK, 5 wrong ACKs incl. ISS, ISS+2, ISS+1+2^31, 0, 2^32-1, RST in/out of window, SYN-ACK, data) for peer initial sequence numbers {0,1,2^31-1,2^31,2^32-1}; 36 SYN option sets (all subsets of MSS/WS/TS/SACK-permitted in two orders, padded, EOL-terminated, unknown kind, truncated, MSS 0) x ISS x right/5 wrong third ACKs; active open with the stack's ISS pinned to {1, 2^31-2, 2^32-2}: all sequences over 12 answers; strays: 64 flag combinations x {0,5} bytes x {no socket, listener}. Oracles: connections appear exactly when the reference says, wrong-ACK handshake segments are answered by one reset with that sequence number, strays get exactly one reset acknowledging them, a reset is never answered.",
+  "A bare ACK to a listener creates no connection (no reset demanded). Because every SYN-ACK's ISS is a cookie that stays valid, an exactly matching ACK may complete at the listener after its handshake attempt was abandoned: both outcomes accepted. Known finding D15.",
+  "DESIGN.md §5 C03"),
+ "C04": ("envx",
+  "stateless model checking of the real stack against a scripted raw peer: DFS over all histories of peer window advertisements / ACK placements / ICMP fragmentation-needed within the deviation budget; every emitted segment checked against the window, MSS and MTU offered so far",
+  "Peer MSS {absent,1,88,536,1460} x window scale {absent,0,2,14} x MTU {576,1500} (quick: 3 combinations), writes {1, MSS, MSS+1, 5 MSS, 70000}: at each delivered data segment the peer may answer with a window from {0,1,MSS-1,MSS,3MSS,65535} (edge never retreating), acknowledge mid-segment, withhold the ACK, lose the segment, or an ICMP fragmentation-needed (MTU 296/68/576) arrives; budget 1 (thorough 2 on two configurations). Every emitted segment: end <= right edge offered so far, payload <= min(MSS, MTU-headers-options) and <= reported path MTU afterwards; the stack's own advertised edge never moves left; receive side with a small buffer and an application that reads only once the window has closed: unread accepted bytes <= buffer, window reopens after draining, data wholly outside the advertised window (probe at the edge and beyond a closed window) is never accepted; shrinking the receive buffer mid-stream.",
+  "The peer is conforming except for the deliberate beyond-window probes; advertisements reach the stack in order (no SND.WL1/WL2 test in the stack).",
+  "DESIGN.md §5 C04"),
+ "C05": ("envx",
+  "stateless model checking of the real TCP sender against a scripted raw peer under a virtual clock: DFS over all histories of lost segments and withheld / partial / duplicate ACKs within the deviation budget; every emission time-stamped in virtual time",
+  "Flights of 3 and 10 (thorough 1..12) segments, peer RTT {0,50,300,1500} ms, SACK/timestamps on, a 3000-byte write, silent peer for 1/3/6 timeouts: every history losing up to 1 (2) segments or ACKs. Oracles: third duplicate ACK answered in the same step by a retransmission of the earliest unacknowledged segment (first loss episode); a timeout retransmission never sooner than 200 ms after the previous transmission of that segment; while the peer is silent exactly one segment per timeout, always the earliest unacknowledged, intervals at least doubling; at most 10 data segments before the first ACK; Reno: segments in flight <= 10 + segments acknowledged + duplicate ACKs delivered.",
+  "Duplicate ACK per RFC 5681; a fast retransmit is demanded only in the first loss episode (RFC 6582).",
+  "DESIGN.md §5 C05"),
+ "C06": ("envx+enum",
+  "every frame emitted in a scenario set reaching every originator is validated by an independent RFC-derived decoder; exhaustive enumeration of UDP payloads (all 2-byte values, all lengths) and echo lengths; bounded environment exploration for the TCP originators",
+  "UDP over IPv4 and IPv6: all 65536 two-byte payloads (checksum through all values) and lengths 0..1472; ICMPv4/ICMPv6 echo replies for lengths 0..MTU; TCP (SYN/SYN-ACK with all option sets, data with timestamps/SACK blocks, ACK, FIN, RST from handshake checks and for 64 stray flag combinations) in two-stack and raw-peer runs under budget-1 deviations. Each frame: decodes, length fields equal actual lengths, IPv4 header / ICMP / UDP / TCP checksums verify (UDP/IPv6 zero checksum is a violation), options well-formed and padded, SYN-only options only on SYN, source is an address of the emitting stack, consecutive >68-byte packets of a flow carry different IPv4 ids.",
+  "Ethernet-level addressing (destination MAC) and ARP/NDP frames are exercised by the C12 scenarios once built.",
+  "DESIGN.md §4, §5 C06"),
+ "C11": ("enum+seqx+coop",
+  "exhaustive enumeration of payload lengths x socket kinds on two real stacks; explicit-state search over all interleavings of sends, reads, shutdown, close against a reference queue; stateless model checking of concurrent readers vs delivery",
+  "Every payload length 0..1472 over IPv4, IPv6 and v4-mapped destinations through sender kinds {bound *, bound specific, connected, unbound} x receiver kinds {bound *, bound specific, connected}; lengths {1473, 2000, 65507, 65508, 65527, 65528, 65535, 65536}: one emitted packet with exactly those bytes and consistent length fields, or an error and no packet; every Read returns one datagram byte-for-byte with the true source address/port, once; all sequences of length <=5 (6) over sends from two senders, read, shutdown(read), close with a two-datagram receive buffer; raw datagrams whose IP payload is longer than the UDP length; 4 programs of two readers racing packet delivery, all schedules with <=2 preemptions.",
+  "A datagram that fits must be accepted; one that does not may be dropped whole.",
+  "DESIGN.md §5 C11"),
+ "C13": ("enum",
+  "exhaustive enumeration of echo-request inputs injected into the real stack; every emitted frame matched against outstanding requests by an independent decoder",
+  "ICMPv4 and ICMPv6 echo requests: every payload length 0..1472 (1452) x 2 fill patterns, identifier x sequence over {0,1,0x7fff,0x8000,0xffff}^2, destinations {own A1, own A2, foreign, unassigned}, fragmented requests of 2200 and 3700 bytes in every 8-byte-aligned cut (step 56, thorough 8) into 2-3 fragments in every arrival order, bursts of {1,9,10,11,14} injected before the replier runs. Oracles: each reply matches one unanswered request (identifier, sequence, payload), comes from the pinged address to the requester with a valid checksum; at most one reply per request, all answered while fewer than ten are pending; nothing for foreign/unassigned destinations.",
+  "Known finding D11 (no IPv6 reassembly).",
+  "DESIGN.md §5 C13"),
  "C08": ("seqx+coop",
   "explicit-state search over all fragment arrival sequences on the real reassembler vs an interval-coverage reference; stateless model checking (all schedules, cooperative scheduler) of concurrent fragment delivery",
   "Every arrival sequence (with repetition, depth <=5 quick / <=6 thorough) of consistent 8-byte-aligned fragments of 1-2 interleaved datagrams of 1-4 units, plus advance(31 s), is replayed on a fresh real Fragmentation and compared call by call with a coverage reference (done exactly when complete + last seen, payload byte-exact, nothing delivered otherwise, old fragments not combined after the timeout). 13 concurrent programs (2-3 threads feeding fragments of 1-2 datagrams) are explored over all schedules (unbounded preemptions for 2 threads, <=3/<=5 for 3 threads).",
